@@ -200,6 +200,14 @@ for _pid, _extra in ROUND16.items():
     _l, _t, _text, _n, _r = CHECKS[_pid]
     CHECKS[_pid] = (_l, _t, _text + _extra, _n, _r)
 
+ROUND17 = {
+    "C02": " Round 17: a function that finishes a nested call's result in place and hands on the same object.",
+    "C15": " Round 17: elements that share an argument object, evaluated by a body that uses its arguments up.",
+}
+for _pid, _extra in ROUND17.items():
+    _l, _t, _text, _n, _r = CHECKS[_pid]
+    CHECKS[_pid] = (_l, _t, _text + _extra, _n, _r)
+
 NOT_BUILT = "check not built yet in this round (design in DESIGN.md §4); will be claimed once its monitor exists"
 
 
